@@ -60,7 +60,10 @@ func projects(tier string) []project {
 		return func(c scen.Case) bool { return c.Features["family"] == name }
 	}
 	ps := []project{
-		{"signatures: return shapes and 3-parameter orders", append(pick(sig.Cases, fa("sig-return"), 24), pick(sig.Cases, fa("sig-3param"), 10)...)},
+		{"signatures: every return shape (incl. map), map/struct bodies, 3-parameter orders", append(append(
+			pick(sig.Cases, func(c scen.Case) bool { return c.Features["family"] == "sig-return" && c.Features["response"] == "" && c.Features["errresps"] == "" }, 24),
+			pick(sig.Cases, func(c scen.Case) bool { return c.Features["family"] == "sig-1param" && c.Features["in"] == "Body" && c.Features["kind"] != "body-string" && c.Features["validate"] == "" && c.Features["ptr"] == "false" }, 8)...),
+			pick(sig.Cases, fa("sig-3param"), 10)...)},
 		{"types: graphs without mutual recursion, leaves, cross-package", append(append(pick(typ.Cases, func(c scen.Case) bool { return c.Features["family"] == "type-graph" && c.Features["mutual"] == "false" }, 24), pick(typ.Cases, fa("type-leaf"), 14)...), pick(typ.Cases, fa("type-cross-package"), 1)...)},
 		{"layout and security: prefixes, verbs, hidden, security shapes (with route-conflict warnings)", append(pick(lay, func(c scen.Case) bool { return c.Features["prefix"] == "/§/a" }, 20), pick(sec.Cases, func(scen.Case) bool { return true }, 12)...)},
 	}
